@@ -22,15 +22,20 @@ pub struct Config {
     pub env: Option<&'static str>,
     /// directory (relative to the sandbox root) that the configuration denotes
     pub dname: &'static str,
+    /// how explicit directories are spelled in this configuration (relative to the sandbox root): `dname`, except where the
+    /// way there leads through a symbolic link
+    pub spell: &'static str,
 }
 
 pub const CONFIGS: &[Config] = &[
-    Config { name: "unset", env: None, dname: "bindings" },
-    Config { name: "relative", env: Some("out"), dname: "out" },
-    Config { name: "absolute", env: Some("{R}/out"), dname: "out" },
-    Config { name: "dot-prefix", env: Some("./out"), dname: "out" },
-    Config { name: "trailing-slash", env: Some("out/"), dname: "out" },
-    Config { name: "dotdot", env: Some("sub/../out"), dname: "out" },
+    Config { name: "unset", env: None, dname: "bindings", spell: "bindings" },
+    Config { name: "relative", env: Some("out"), dname: "out", spell: "out" },
+    Config { name: "absolute", env: Some("{R}/out"), dname: "out", spell: "out" },
+    Config { name: "dot-prefix", env: Some("./out"), dname: "out", spell: "out" },
+    Config { name: "trailing-slash", env: Some("out/"), dname: "out", spell: "out" },
+    Config { name: "dotdot", env: Some("sub/../out"), dname: "out", spell: "out" },
+    // `lnk` is a symbolic link to the directory `real` (made by `set_env`); every spelling of the history goes through it
+    Config { name: "through-symlink", env: Some("lnk/out"), dname: "real/out", spell: "lnk/out" },
 ];
 
 pub fn spellings(dname: &str, root: &Path) -> Vec<(String, &'static str)> {
@@ -77,6 +82,11 @@ impl<'a> World<'a> {
     }
 
     pub fn set_env(&self, cfg: &Config) {
+        if cfg.name == "through-symlink" {
+            let _ = std::fs::create_dir_all(self.root.join("real"));
+            #[cfg(unix)]
+            let _ = std::os::unix::fs::symlink(self.root.join("real"), self.root.join("lnk"));
+        }
         match cfg.env {
             None => std::env::remove_var("TS_RS_EXPORT_DIR"),
             Some(v) => std::env::set_var("TS_RS_EXPORT_DIR", v.replace("{R}", &self.root.to_string_lossy())),
@@ -213,7 +223,7 @@ pub fn c06(args: &Args, reg: &[TypeEntry], log: &mut Log) {
     let mut plans: Vec<(usize, usize, Vec<(Op, &'static str)>)> = vec![];
     {
         let cfg_i = (shard as usize + args.seed as usize) % CONFIGS.len();
-        let dname = CONFIGS[cfg_i].dname;
+        let dname = CONFIGS[cfg_i].spell;
         let mut ops: Vec<(Op, &'static str)> = vec![];
         for &ty in &w.uni {
             ops.push((Op { ty, kind: OpKind::Export }, "export"));
@@ -235,7 +245,7 @@ pub fn c06(args: &Args, reg: &[TypeEntry], log: &mut Log) {
     for _ in 0..n_random {
         let cfg_i = rng.below(CONFIGS.len());
         let len = 1 + rng.below(if args.thorough() { 5 } else { 4 });
-        let ops = (0..len).map(|_| random_op(&w, &mut rng, CONFIGS[cfg_i].dname)).collect();
+        let ops = (0..len).map(|_| random_op(&w, &mut rng, CONFIGS[cfg_i].spell)).collect();
         plans.push((cfg_i, rng.below(4), ops));
     }
 
@@ -414,7 +424,7 @@ pub fn c17(args: &Args, reg: &[TypeEntry], log: &mut Log) {
         // absolute/relative configurations alternate; the default relative directory is C06's subject
         let cfg = &CONFIGS[1 + rng.below(CONFIGS.len() - 1)];
         let len = 1 + rng.below(if args.thorough() { 4 } else { 3 });
-        let ops: Vec<Op> = (0..len).map(|_| random_op(&w, &mut rng, cfg.dname).0).collect();
+        let ops: Vec<Op> = (0..len).map(|_| random_op(&w, &mut rng, cfg.spell).0).collect();
         let k = rng.below(len);
         let obstacle = OBSTACLES[(it as usize + rng.below(OBSTACLES.len())) % OBSTACLES.len()];
         // fault-free reference for the same history
